@@ -7,8 +7,8 @@ Open Scope N_scope.
 
 (* unicode.IsLetter *)
 Definition tbl_letter (c : N) : bool :=
-  existsb (N.eqb c) [170; 181; 223; 233; 937; 1078; 26085; 119964].
-   (* ª µ ß é Ω ж 日 𝒜 *)
+  existsb (N.eqb c) [170; 181; 223; 233; 255; 937; 1078; 26085; 26412; 119964].
+   (* ª µ ß é ÿ Ω ж 日 本 𝒜 *)
 (* unicode.IsDigit *)
 Definition tbl_digit (c : N) : bool :=
   existsb (N.eqb c) [1635; 2411].
